@@ -20,6 +20,16 @@ CHECKS["C12"] = ("fault_enumeration",
    "Three monitors over exhaustively enumerated executions: (1) every C11 history (depth 3 quick / 4 thorough, witnesses depth 3) under a tracking global allocator with red zones, poisoning and quarantine of freed blocks and a per-execution leak check; (2) loom explores all interleavings of the refcount atomics for every assignment of 7 actions to 2, 3 (and 4 in thorough) handles of one shared buffer, with an allocator that demands exactly one free and a loom UnsafeCell shadow that makes the free a write and every harness read a read, so loom's causality checker also validates the Release/Acquire protocol; (3) thorough: valgrind memcheck over the depth-3 histories for out-of-bounds/after-free reads.",
    "loom sees only the refcount atomics; buffer bytes are represented by the shadow cell. Quick tier bounds 3-handle scenarios to 3 preemptions (unbounded in thorough; 4 handles bound 2). SendTendril only sequentially.",
    "DESIGN.md §3 C12", "E5 ops + E6 loomjob")
+CHECKS["C01"] = ("model_checking",
+   "explicit-state product search of the real tokenizer x reference tokenizer (R-tok) over a lexeme alphabet, plus exhaustive bounded continuations and SIMD window sweep",
+   "Job 1: breadth-first search where a state is the lexeme history; each transition feeds history+lexeme chunk-per-lexeme to the real Tokenizer and compares the delivered tokens with R-tok (independent transliteration of the WHATWG tokenizer) under two closers (EOF; a universal closer that flushes every token buffer); states are merged by (abstract hook dump of the implementation, R-tok control state). Quick: 3 start configurations, time-capped (depth ~16, 5e5 states); thorough: all 48 start-state x last-start-tag x CDATA configurations run to a closed frontier (3.5e5 states, 1.9e7 transitions each). Job 2: from the shortest witness of every control state all lexeme strings of length <=2 (3 in thorough) in one chunk. Job 3: data-state strings of 15..34 (50) characters with up to two special items at every pair of positions (SIMD stride/mask/tail).",
+   "Alphabet: 53 lexemes, one per character class any spec state distinguishes; other characters assumed to behave like their class. Buffer abstraction argued in DESIGN.md C01. R-tok and python's html.entities table are the trusted base. Parse errors not compared. Quick tier is capped (exhaustive=false), thorough closes.",
+   "DESIGN.md §3 C01", "E1 tok")
+CHECKS["C09"] = ("model_checking",
+   "same product search as C01 with the line-number oracle (R-tok records characters consumed at each emission)",
+   "Every execution of the C01 jobs (LF, CR and CRLF are alphabet members, so a line break is taken in every reachable tokenizer state, in every chunk position) is checked against the line R-tok derives from the number of characters the spec algorithm has consumed at emission: exact for tags, comments, doctypes and EOF; for a character piece the line of the spec position of its last character with one character of look-ahead tolerance; never decreasing.",
+   "Same alphabet/abstraction/trusted base as C01. Forwarding through set_current_line is checked by the tree-level checks. Chunk independence of the numbers is C03.",
+   "DESIGN.md §3 C09", "E1 tok")
 PENDING = {}
 def main():
     checks = []
